@@ -534,4 +534,26 @@ theorem linkWF_processHeader (r : Repo) (h : Hdr) (ok : Bool) (hw : LinkWF r.are
     · simp only [hf, ↓reduceIte]
       exact linkWF_extendHeader r h pb ph lst hw hpass.lastIs (by simpa using hf) (hnc pb ph lst hpc)
 
+/-! ### submission histories -/
+
+/-- a history of submissions: each header with the outcome of its hash-vs-target comparison. -/
+def submitAll (r : Repo) (hs : List (Hdr × Bool)) : Repo := hs.foldl (fun s x => (processHeader s x.1 x.2).1) r
+
+/-- no submission of the history triggers the automatic clean (checked at the state it is submitted to). -/
+def NoAutoClean : Repo → List (Hdr × Bool) → Prop
+  | _, [] => True
+  | r, x :: xs =>
+    (∀ pb ph lst, precheck r x.1 x.2 = .inr (pb, ph, lst) →
+      Int.tmod ((r.br pb).height + 1) (Facts.autoCleanModulus : Int) ≠ 0) ∧
+    NoAutoClean (processHeader r x.1 x.2).1 xs
+
+theorem linkWF_submitAll (r : Repo) (hs : List (Hdr × Bool)) (hw : LinkWF r.arena) (hq : NoAutoClean r hs) :
+    LinkWF (submitAll r hs).arena := by
+  induction hs generalizing r with
+  | nil => exact hw
+  | cons x xs ih =>
+    obtain ⟨h1, h2⟩ := hq
+    simp only [submitAll, List.foldl_cons]
+    exact ih _ (linkWF_processHeader r x.1 x.2 hw h1) h2
+
 end BRV.Repo
